@@ -201,7 +201,9 @@ func (p *HTTPProxy) ServeHTTP(w http.ResponseWriter, r *http.Request) {
 			targetURL.Path = "/" + targetURL.Path
 		}
 		if targetURL.RawPath != "" {
-			targetURL.RawPath = t.PrependPath + targetURL.RawPath
+			// the prepend value is not escaped: as it is it would make the
+			// encoded form invalid and the client's encoding would be dropped
+			targetURL.RawPath = (&url.URL{Path: t.PrependPath}).EscapedPath() + targetURL.RawPath
 			if !strings.HasPrefix(targetURL.RawPath, "/") {
 				targetURL.RawPath = "/" + targetURL.RawPath
 			}
